@@ -96,8 +96,8 @@ func init() {
 		"sync.(*WaitGroup).Add":   noop,
 		"sync.(*WaitGroup).Done":  noop,
 		"sync.(*WaitGroup).Wait":  noop,
-		"sort.SliceStable": sortSliceModel,
-		"sort.Slice":       sortSliceModel,
+		"sort.SliceStable":        sortSliceModel,
+		"sort.Slice":              sortSliceModel,
 		"io.ReadFull": func(x *fnCtx, st *State, fr *Frame, in ssa.Instruction, args []*Val, rt types.Type) *Val {
 			libUsed["io.ReadFull"] = true
 			buf := args[1]
